@@ -48,6 +48,11 @@ def requests(tier, rng):
         for xi in S.find_keygen_seeds_t_band(s, rng, budget=5000 if tier == "quick" else 40000, band=6, want=2 if tier == "quick" else 12):
             L.append("sign::%s::keypair %s -" % (s, xi.hex()))
             _band.add(xi.hex())
+    # corpus of key seeds for which a secret polynomial is sampled from a "tight" stream (kat/eta_tight_seeds.json)
+    tight = json.load(open(os.path.join(core.VERIF, "kat", "eta_tight_seeds.json")))["keygen"]
+    for s in SETS:
+        for xi in tight.get(s, [])[: (3 if tier == "quick" else 8)]:
+            L.append("sign::%s::keypair %s -" % (s, xi))
     for s in SETS:
         seeds = ["00" * 32, "ff" * 32] + [bytes(rng.randrange(256) for _ in range(32)).hex() for _ in range(n_rand)]
         for seed in seeds:
